@@ -73,6 +73,9 @@ func (tr *translator) errf(at ast.Node, format string, args ...interface{}) erro
 
 var reserved = map[string]bool{}
 
+// gallina names of the targets of the current run (also reserved)
+var targetNames = map[string]bool{}
+
 func init() {
 	for _, w := range strings.Fields(`as at cofix else end exists exists2 fix for forall fun if IF in let match mod Prop return Set then
 		Type using where with by struct nosimpl
@@ -89,7 +92,7 @@ func init() {
 // coqIdent: Go identifiers are used as they are; a name that is reserved in Gallina, used by the prelude or by
 // a generated definition gets a trailing underscore.  Generated helper names contain ' and cannot clash.
 func coqIdent(name string) string {
-	if reserved[name] || strings.HasPrefix(name, "E_") {
+	if reserved[name] || targetNames[name] || strings.HasPrefix(name, "E_") {
 		return name + "_"
 	}
 	for _, r := range name {
@@ -156,6 +159,7 @@ func run(repo, targetsPath string) (string, int, error) {
 		errorsUsed: map[string]bool{}}
 	var all []*target
 	names := map[string]bool{}
+	targetNames = map[string]bool{}
 	for _, sp := range specs {
 		if sp.File == "" || sp.Func == "" || sp.Gallina == "" {
 			return "", 0, fmt.Errorf("%s: every target needs file, func and gallina_name", targetsPath)
@@ -164,7 +168,7 @@ func run(repo, targetsPath string) (string, int, error) {
 			return "", 0, fmt.Errorf("gallina_name %s is duplicated or reserved", sp.Gallina)
 		}
 		names[sp.Gallina] = true
-		reserved[sp.Gallina] = true
+		targetNames[sp.Gallina] = true
 		p, err := ld.load(ld.pathOfDir(filepath.Dir(sp.File)))
 		if err != nil {
 			return "", 0, err
